@@ -177,6 +177,12 @@ func runC18(e *Env) {
 		if ph > 0 {
 			// reconfiguration between phases only (nothing in flight), as the contract demands
 			if e.Bool() {
+				if e.Chance(1, 3) {
+					// the configuration may be changed more than once before the next Pick: the last value counts
+					tmp := 1 + e.Intn(4)
+					m.SetNumLoops(tmp)
+					log = append(log, fmt.Sprintf("loops=%d(overridden)", tmp))
+				}
 				cfgLoops = 1 + e.Intn(4)
 				m.SetNumLoops(cfgLoops)
 				log = append(log, fmt.Sprintf("loops=%d", cfgLoops))
